@@ -139,7 +139,11 @@ CLAIMS = [
 
 # ----------------------------------------------------------------------------- truncation: EOF vs syntax
 
-def eof_rule(res, eng, rd, terms, what, candidates, opts="default"):
+KF_CHAR_NAME = "eof-partial-char-name"
+KF_HEX_SCALAR = "eof-partial-hex-scalar"
+
+
+def eof_rule(res, eng, rd, terms, what, candidates, opts="default", kf=()):
     """An error decided on a read that hit the end of input must be in the EOF category (the caller may retry with
     more data). `candidates`: truncated texts (each a proper prefix of a valid datum) for native confirmation."""
     codes = eng.enums["ErrorCode"]
@@ -171,6 +175,16 @@ def eof_rule(res, eng, rd, terms, what, candidates, opts="default"):
             continue
         n_err += 1
         idx = reads[-1][1]
+        # open known findings: value-dependent errors raised after a name / digit loop ran into the end of input
+        if KF_CHAR_NAME in kf and codes[ci] == "InvalidCharacterConstant" and "parse_r6rs_char" in what:
+            if KF_CHAR_NAME not in res.known:
+                res.known.append(KF_CHAR_NAME)
+            continue
+        if KF_HEX_SCALAR in kf and codes[ci] in ("InvalidUnicodeCodePoint", "InvalidEscape") and \
+                any(e[0] == "from_u32" for e in evs[evs.index(reads[-1]):ei]):
+            if KF_HEX_SCALAR not in res.known:
+                res.known.append(KF_HEX_SCALAR)
+            continue
         res.must_be_unsat(list(t.state.pc) + [z3.UGE(idx, rd.len), idx != rd.err_at],
                           "%s: end of input is reported as a syntax error (%s), not as an EOF error" % (what, codes[ci]), onm)
     return n_err
